@@ -411,4 +411,8 @@ def check(L, tier, log, samples):
     return viols, stats
 
 
-SCENARIOS = [("c02_decoder_memo", []), ("c19_payload_with_header", [])]
+SCENARIOS = [("c02_chunking_independence", []), ("c02_decoder_memo", []), ("c19_payload_with_header", [])]
+
+
+def replay_args(v):
+    return ("c02_chunking_independence", [])
